@@ -19,6 +19,7 @@ pub fn opts() -> GenOpts {
     o.max_named = 5;
     o.info = true;
     o.types = vec![Ty::Str, Ty::U32, Ty::Os];
+    o.cmd_or_words = true;
     o
 }
 
